@@ -1,4 +1,5 @@
 ---------------------------- MODULE PuanPrioOps ----------------------------
-EXTENDS Integers, Sequences, FiniteSets, TLC
+EXTENDS PuanModel
+PrioOpNames == {}
 PrioVerdict(e) == {"unknown_op"}
 =============================================================================
